@@ -199,7 +199,7 @@ fn trunc<T: std::fmt::Debug>(t: &T) -> String {
 }
 
 pub fn responses(ctx: &Ctx) -> Report {
-    let n = ctx.n(6_000, 600_000);
+    let n = ctx.n(60_000, 30_000_000);
     par_cases(ctx, "responses", n, ctx.secs(25, 500), |i, rng, rep| run_case(i, rng, rep, false))
 }
 
